@@ -6,6 +6,7 @@ package main
 // spec/Judge_Empty.tla.
 
 import (
+	"errors"
 	"fmt"
 	"os"
 	"reflect"
@@ -285,6 +286,34 @@ func emptyTagType(ft reflect.Type, tagName, rules string) reflect.Type {
 	})
 }
 
+// emptyNonEmptyOf: a non-empty value of the cell's kind (for a neighbour that must not be empty), as an element of a
+// map whose element type is et.
+func emptyNonEmptyOf(c *emptyCell, et reflect.Type) reflect.Value {
+	if ki := emptyKinds[c.Kind]; ki != nil {
+		for _, st := range []string{"nonzero", "nonEmpty"} {
+			if v, ok := ki.states[st]; ok && v != nil {
+				rv := reflect.ValueOf(v)
+				if rv.Type().AssignableTo(et) && !rv.IsZero() {
+					return rv
+				}
+			}
+		}
+		for _, v := range ki.states {
+			if v == nil {
+				continue
+			}
+			rv := reflect.ValueOf(v)
+			if rv.Type().AssignableTo(et) && !rv.IsZero() && !((rv.Kind() == reflect.Slice || rv.Kind() == reflect.Map) && rv.Len() == 0) {
+				return rv
+			}
+		}
+	}
+	if et.Kind() == reflect.Interface {
+		return reflect.ValueOf("filled")
+	}
+	panic("empty: no non-empty value for kind " + c.Kind)
+}
+
 // emptyCall performs the real call for one cell.
 func emptyCall(c *emptyCell) (res error, bad error) {
 	joined := strings.Join(c.Rules, ",")
@@ -431,6 +460,32 @@ func emptyCall(c *emptyCell) (res error, bad error) {
 			sl := reflect.MakeSlice(reflect.SliceOf(m.Type()), 1, 1)
 			sl.Index(0).Set(m)
 			return valid.Map(sl.Interface(), rm), nil
+		case "slice2nd":
+			// the cell's map is the SECOND element; the first holds every ruled key with a non-empty value.  Clauses of
+			// element [0] are none of this cell's business and are dropped; those of [1] are judged as the cell's.
+			first := reflect.MakeMap(m.Type())
+			ne := emptyNonEmptyOf(c, m.Type().Elem())
+			first.SetMapIndex(reflect.ValueOf(emptyFx), ne)
+			if c.By {
+				first.SetMapIndex(reflect.ValueOf(emptyZz), ne)
+			}
+			sl := reflect.MakeSlice(reflect.SliceOf(m.Type()), 2, 2)
+			sl.Index(0).Set(first)
+			sl.Index(1).Set(m)
+			err := valid.Map(sl.Interface(), rm)
+			if err == nil {
+				return nil, nil
+			}
+			var keep []string
+			for _, cl := range strings.Split(err.Error(), valid.ErrEndFlag) {
+				if !strings.HasPrefix(cl, "\"[0]") {
+					keep = append(keep, cl)
+				}
+			}
+			if len(keep) == 0 {
+				return nil, nil
+			}
+			return errors.New(strings.Join(keep, valid.ErrEndFlag)), nil
 		case "mapfn":
 			return valid.MapFn(m.Interface(), rm, nil), nil
 		case "object":
